@@ -51,7 +51,9 @@ PANIC_API = [
     (r"^<(u|i)(\d+|size) as core::ops::arith::(Add|Sub|Mul|Div|Rem)Assign<.*>>::(add|sub|mul|div|rem)_assign$", "arithmetic overflow / division by zero (compound assignment with a reference)"),
     (r"^core::char::methods::<impl char>::(to_digit|is_digit|from_digit)$", "radix out of range"),
     (r"^core::char::convert::from_digit$", "radix out of range"),
-    (r"^core::slice::<impl \[T\]>::(first|last|get|get_mut|iter|len|is_empty|contains|to_vec|reverse|sort_by|iter_mut|last_mut|as_ptr|as_mut_ptr|join|concat|starts_with|ends_with)$", None),
+    # since Rust 1.81 the slice sorts detect a comparison that is not a total order and panic ("user-provided comparison function does not correctly implement a total order")
+    (r"^(core|alloc)::slice::<impl \[T\]>::(sort_by|sort_unstable_by|sort_by_key|sort_unstable_by_key|sort_by_cached_key|select_nth_unstable_by|select_nth_unstable_by_key)$", "comparison that is not a total order"),
+    (r"^core::slice::<impl \[T\]>::(first|last|get|get_mut|iter|len|is_empty|contains|to_vec|reverse|iter_mut|last_mut|as_ptr|as_mut_ptr|join|concat|starts_with|ends_with)$", None),
     (r"^alloc::vec::Vec::<.*>::(with_capacity|reserve|reserve_exact)$", None),  # capacity overflow: allocation failure class, not input driven
     (r"^core::panicking::(panic|panic_fmt|panic_explicit|panic_display|unreachable_display|panic_nounwind|panic_const::.*|assert_failed|panic_bounds_check|panic_str)$", "explicit panic"),
     (r"^std::rt::begin_panic", "explicit panic"),
